@@ -288,6 +288,15 @@ Lemma checker_default_formula amp w e_ s n_ e n :
   amp * sin (2 * PI / ((e_ - w) / 2) * e) * cos (2 * PI / ((n_ - s) / 2) * n).
 Proof. reflexivity. Qed.
 
+(** the four option combinations: a given wavelength is used as given whatever the other option is,
+    an omitted one is half of the region's extent in ITS direction *)
+Lemma checker_options amp w e_ s n_ we wn e n :
+  checker_opt amp w e_ s n_ None None e n = checker amp ((e_ - w) / 2) ((n_ - s) / 2) e n /\
+  checker_opt amp w e_ s n_ (Some we) None e n = checker amp we ((n_ - s) / 2) e n /\
+  checker_opt amp w e_ s n_ None (Some wn) e n = checker amp ((e_ - w) / 2) wn e n /\
+  checker_opt amp w e_ s n_ (Some we) (Some wn) e n = checker amp we wn e n.
+Proof. repeat split; reflexivity. Qed.
+
 (** periodic with the stated wavelengths *)
 Lemma checker_periodic amp we wn e n : we <> 0 -> wn <> 0 ->
   checker amp we wn (e + we) n = checker amp we wn e n /\
